@@ -186,6 +186,15 @@ func (g *gen) genRSCrafted(pp, size, base int) {
 				continue
 			}
 			g.emit("rs %d %d %d %d:%s", pp, size, base, k, intsArg(d))
+			// the same data followed by more symbols: the chosen vector is then an *intermediate* state of the division
+			// (runs of zero coefficients in the running remainder, seed y04)
+			if len(d)+6 < size-1-k || size > 256 {
+				suf := make([]int, 2+g.intn(5))
+				for i := range suf {
+					suf[i] = 1 + g.intn(size-1)
+				}
+				g.emit("rs %d %d %d %d:%s", pp, size, base, k, intsArg(append(append([]int{}, d...), suf...)))
+			}
 		}
 	}
 }
@@ -282,7 +291,20 @@ func (g *gen) genRSCraftedQRContent() {
 			d[i/8] = 0x80 >> uint(i%8)
 			unit[i] = f.remainder(d, gp)
 		}
-		for _, t := range g.rsTargets(f, k) {
+		targets := g.rsTargets(f, k)
+		nt := len(targets)
+		targets = append(targets, targets...) // second pass: the vector is the state after a prefix of the block
+		for ti, t := range targets {
+			n1 := ncw
+			if ti >= nt {
+				n1 = k + 2 + g.intn(ncw-k-2)
+				if n1 > ncw-3 {
+					n1 = ncw - 3
+				}
+				if n1 < k+2 {
+					continue
+				}
+			}
 			neq := 16 + 8*k
 			words := (nbits + 1 + 63) / 64
 			eqs := make([]bitRow, 0, neq)
@@ -301,11 +323,21 @@ func (g *gen) genRSCraftedQRContent() {
 			for b := 0; b < 4; b++ {
 				fix(nbits-4+b, false)
 			}
+			// remainder of the first n1 codewords (n1 = ncw: of the whole block)
+			unitP := unit
+			if n1 < ncw {
+				unitP = make([][]int, nbits)
+				for i := 0; i < n1*8; i++ {
+					d := make([]int, n1)
+					d[i/8] = 0x80 >> uint(i%8)
+					unitP[i] = f.remainder(d, gp)
+				}
+			}
 			for j := 0; j < k; j++ {
 				for b := 0; b < 8; b++ {
 					row := make(bitRow, words)
-					for i := 0; i < nbits; i++ {
-						if unit[i][j]>>uint(7-b)&1 == 1 {
+					for i := 0; i < n1*8; i++ {
+						if unitP[i][j]>>uint(7-b)&1 == 1 {
 							row.flip(i)
 						}
 					}
